@@ -181,8 +181,8 @@ class MergerCheck(Check):
 
     def budget(self, tier):
         if tier == "quick":
-            return {"runs": 24000, "chunk": 250, "wall": 150, "run_timeout": 30, "min_wall": 30, "isolate": False}
-        return {"runs": 1500000, "chunk": 2000, "wall": 1500, "run_timeout": 30, "min_wall": 120, "isolate": False}
+            return {"runs": 24000, "chunk": 250, "wall": 150, "run_timeout": 90, "min_wall": 30, "isolate": False}
+        return {"runs": 1500000, "chunk": 2000, "wall": 1500, "run_timeout": 90, "min_wall": 120, "isolate": False}
 
     def preload(self):
         global KB_NA
@@ -207,7 +207,8 @@ class MergerCheck(Check):
                 "values": "int" if rng.random() < 0.7 else "real", "seed": rng.randrange(2 ** 32),
                 "density": rng.choice([0.2, 0.6, 1.0]),
                 "scale_pow2": rng.choice([0, 0, 0, -40, -30, -20, -10, 20, 50]),
-                "dtype": "int64" if rng.random() < 0.08 else "float64"}
+                "dtype": "int64" if rng.random() < 0.08 else "float64",
+                "layout": rng.choice(["C", "C", "C", "F", "Tview"])}
         model = PartitionModel(n)  # strict model, used only to bias generation
         ops = []
         n_ops = rng.randint(1, 8) if rng.random() < 0.9 else rng.randint(9, 24)
@@ -379,6 +380,8 @@ class MergerCheck(Check):
         n = rng.choice([4, 5, 6, 8, 12, 20, rng.randint(30, 120)])
         if rng.random() < 0.03:
             n = rng.randint(1010, 1600)  # a realistic grid size with long plateaus
+        if rng.random() < 0.025:
+            return self._gen_huge_cut_and_merge(rng)
         # geometry: chain + a few random extra symmetric neighbour pairs
         pairs = {(i, i + 1) for i in range(n - 1)}
         for _ in range(rng.randint(0, n)):
@@ -416,8 +419,98 @@ class MergerCheck(Check):
                 "D": rng.choice([1.0, 1.0, 2.0 ** -40, 2.0 ** -20, 2.0 ** 30]),
                 "fmt": rng.choice(["coo", "csr"]), "ops": []}
 
+    def _gen_huge_cut_and_merge(self, rng):
+        """Production-size grids (real SqRA grids have 10^4..10^5 cells): a chain of n cells with a few short energy
+        plateaus, some of them at the high-index end.  Judged with sparse algebra (no dense model of this size)."""
+        n = rng.choice([rng.randint(46400, 52000), rng.randint(65600, 80000), rng.randint(20000, 40000)])
+        plateaus = []
+        for _ in range(rng.randint(1, 4)):
+            ln = rng.randint(2, 8)
+            where = rng.choice(["end", "end", "start", "middle"])
+            a = {"end": n - ln - rng.randint(0, 20), "start": rng.randint(0, 200),
+                 "middle": rng.randint(n // 3, 2 * n // 3)}[where]
+            plateaus.append([max(0, a), ln])
+        return {"kind": "cut_and_merge_huge", "n": n, "plateaus": plateaus, "T": rng.choice([273.0, 300.0]),
+                # (the deletion step of the library is quadratic in the number of cells - minutes at this size - so
+                # the production-size scenario exercises the merge step only)
+                "upper": False, "seed": rng.randrange(2 ** 32), "ops": []}
+
+    def _exec_huge(self, sc: dict) -> dict:
+        from scipy.sparse import diags, csr_array, coo_array
+        tr = self.tr
+        n = sc["n"]
+        rs = np.random.RandomState(sc["seed"] % (2 ** 32))
+        E = rs.uniform(0.0, 30.0, size=n)
+        for a, ln in sc["plateaus"]:
+            E[a:a + ln] = E[a]
+        hot = []
+        if sc["upper"]:
+            hot = sorted(set(int(x) for x in rs.randint(0, n, size=5)) - {c for a, ln in sc["plateaus"]
+                                                                         for c in range(a, a + ln)})
+            E[hot] = 900.0
+        off = rs.uniform(0.5, 2.0, size=n - 1)
+        # sparse *arrays* with int32 indices in row-major coo order, as the workflow's load_npz hands them over
+        idx = np.arange(n - 1, dtype=np.int32)
+        r_ = np.concatenate([idx, idx + 1])
+        c_ = np.concatenate([idx + 1, idx])
+        order = np.lexsort((c_, r_))
+        r_, c_ = r_[order].astype(np.int32), c_[order].astype(np.int32)
+        vals = np.concatenate([off, off])[order]
+        h = coo_array((vals, (r_, c_)), shape=(n, n))
+        sfc = coo_array((vals * 1.5, (r_.copy(), c_.copy())), shape=(n, n))
+        V = rs.uniform(0.5, 2.0, size=n)
+        T = sc["T"]
+        kT = KB_NA * T / 1000.0
+        with lib_call("SQRA.get_rate_matrix (huge chain)"):
+            sq = tr.SQRA(energies=E, volumes=V, distances=h, surfaces=sfc)
+            Q = sq.get_rate_matrix(1.0, T)
+        lower = 1e-6
+        upper = 300.0 if sc["upper"] else None
+        what = f"cut_and_merge(n={n}, plateaus={sc['plateaus']}, upper={'yes' if sc['upper'] else 'no'})"
+        with lib_call(what):
+            R, il = sq.cut_and_merge(Q.copy(), T=T, lower_limit=lower, upper_limit=upper)
+        # model: neighbouring cells with exactly equal energy are united; hot cells deleted
+        group_of = np.arange(n)
+        for i in range(n - 1):
+            if abs(E[i] - E[i + 1]) * 1000 / (KB_NA * T) < lower:
+                group_of[i + 1] = group_of[i]
+        groups = {}
+        for c in range(n):
+            groups.setdefault(int(group_of[c]), []).append(c)
+        exp = [g for g in groups.values() if not (set(g) & set(hot))]
+        if il is None:
+            raise Violation("cm-list-missing", f"{what}: no index list returned")
+        got = [[int(c) for c in g] for g in il]
+        if got != exp:
+            bad = next((a, b) for a, b in zip(got + [None], exp + [None]) if a != b)
+            raise Violation("index-list-mismatch", f"{what}: index list differs from the model, first difference "
+                                                   f"{bad[0]} vs {bad[1]} ({len(got)} vs {len(exp)} groups)")
+        k = len(exp)
+        rows = np.concatenate([np.array(g) for g in exp])
+        cols = np.concatenate([np.full(len(g), j) for j, g in enumerate(exp)])
+        P = csr_array(coo_array((np.ones(len(rows)), (rows, cols)), shape=(n, k)))
+        Eref = (P.T @ csr_array(Q) @ P).tolil()
+        Eref.setdiag(0)
+        Eref = csr_array(Eref)
+        Rc = csr_array(R)
+        Roff = Rc.tolil()
+        Roff.setdiag(0)
+        diff = abs(csr_array(Roff) - Eref)
+        scale = float(abs(Q).max())
+        if diff.nnz and diff.max() > 1e-12 * scale:
+            raise Violation("lumping", f"{what}: off-diagonal entries differ from the block sums by {diff.max():.3g}")
+        rsum = np.abs(np.asarray(Rc.sum(axis=1)).ravel()).max()
+        if rsum > 1e-9 * scale:
+            raise Violation("row-sum", f"{what}: rows do not sum to zero (max {rsum:.3g})")
+        return {"events": 3, "fingerprint": f"{n}:{k}", "faults": {"production_size_grid": 1},
+                "probes": {"huge_grid_cells_over_46340": int(n > 46340), "huge_grid_cells_over_65536": int(n > 65536)},
+                "sig": repr(["cmh", n // 5000, len(sc["plateaus"]), sc["upper"]]), "nontrivial": True,
+                "inter": repr(["cmh", sc["upper"]])}
+
     # ------------------------------------------------------------------ execution
     def execute(self, scenario: dict) -> dict:
+        if scenario["kind"] == "cut_and_merge_huge":
+            return self._exec_huge(scenario)
         if scenario["kind"] == "cut_and_merge":
             return self._exec_cut_and_merge(scenario)
         return self._exec_history(scenario)
@@ -492,6 +585,13 @@ class MergerCheck(Check):
         probes = {}
         model = PartitionModel(spec["n"])
         cur_d, cur_s, il_d, il_s = M0.copy(), csr_array(M0), None, None
+        # memory layout of the caller's dense array: row-major, column-major, or a transposed view
+        if spec.get("layout") == "F":
+            cur_d = np.asfortranarray(M0)
+            faults["dense_fortran_order"] = 1
+        elif spec.get("layout") == "Tview":
+            cur_d = np.ascontiguousarray(M0.T).T
+            faults["dense_transposed_view"] = 1
         sig = [spec["kind"], spec["values"], _bucket(spec["n"]), spec.get("scale_pow2", 0)]
         changed_ops = 0
         log.add("caller", "start", [spec["kind"], spec["n"], spec["values"]], digest_array(M0))
